@@ -76,8 +76,8 @@ class QuadricTensor(ProjectiveTensor, ABC):
         if normalize_matrix is True:
             matrix = matrix.array if isinstance(matrix, Tensor) else np.asarray(matrix)
             w = np.abs(np.linalg.eigvalsh(matrix))
-            pseudo_det = np.prod(np.where(w > EQ_TOL_ABS, w, 1), axis=-1, keepdims=True)
-            matrix = matrix / (pseudo_det ** (1 / matrix.shape[-1]))
+            pseudo_det = np.prod(np.where(w > EQ_TOL_ABS, w, 1), axis=-1)
+            matrix = matrix / (pseudo_det ** (1 / matrix.shape[-1]))[..., None, None]
             kwargs["copy"] = False
 
         if not is_dual:
